@@ -62,10 +62,11 @@ def render(g, order=0):
         sees_f = visible(g, m, "f")
         if bare:
             out.append("pub fn pc() { println(\"c.p bare\"); %sh(); }" % ("f(); " if sees_f else ""))
-            out.append("fn main() { }")
+            out.append("pub fn main() { println(\"c.main\"); }")
         elif m in ("b", "c"):
             out.append("pub fn p%s() { println(\"%s.p\", x, hist.len()); %sh(); }" % (m, m, "f(); " if sees_f else ""))
-            out.append("fn main() { }")
+            # a library's own main (pub when its x is pub) is never run: only the entry module's main is
+            out.append("%sfn main() { println(\"%s.main\"); }" % ("pub " if g["x"][m] == "pub" else "", m))
         else:
             body = []
             if sees_f:
